@@ -5,6 +5,7 @@
 import Kopf.Model.C18_Admission
 namespace Kopf.C18
 open Kopf Kopf.J
+set_option linter.unusedSimpArgs false
 
 /-! ### association lists -/
 
@@ -160,4 +161,175 @@ theorem leafAt_nonobj (j : J) (h : j.isObj = false) (q : List String) :
 theorem leafAt_empty (q : List String) : leafAt (.obj []) q = none := by
   cases q <;> simp [leafAt, J.lookup]
 
+/-! ### `dicts.ensure` / `dicts.remove` on leaf functions -/
+
+
+theorem ensure_cons2 (kvs : List (String × J)) (k k2 : String) (ks : List String) (v : J) :
+    ensure (.obj kvs) (k :: k2 :: ks) v =
+      (ensure ((lookup k kvs).getD (.obj [])) (k2 :: ks) v).map (fun c' => .obj (J.insert k c' kvs)) := by
+  cases h : lookup k kvs with
+  | none =>
+    simp only [ensure, h, Option.getD]
+    cases ensure (.obj []) (k2 :: ks) v <;> rfl
+  | some c =>
+    simp only [ensure, h, Option.getD]
+    cases ensure c (k2 :: ks) v <;> rfl
+
+theorem ensure_leaf (v : J) (hv : v.isObj = false) (p : List String) :
+    ∀ (b b' : J), ensure b p v = .ok b' → ∀ q, leafAt b' q = setA (leafAt b) p v q := by
+  induction p with
+  | nil => intro b b' h; cases b <;> simp [ensure] at h
+  | cons k ks ih =>
+    intro b b' h q
+    cases b with
+    | obj kvs =>
+      cases ks with
+      | nil =>
+        simp [ensure] at h
+        subst h
+        cases q with
+        | nil => simp [setA, leafAt]
+        | cons k' qs =>
+          by_cases e : k = k'
+          · subst e
+            simp [setA, leafAt_obj_cons, lookup_insert_same, leafAt_nonobj v hv]
+          · have e' : k' ≠ k := fun x => e x.symm
+            simp [setA, leafAt_obj_cons, lookup_insert_other _ _ _ _ e', pre_cons_cons, e]
+      | cons k2 ks2 =>
+        rw [ensure_cons2] at h
+        cases hc : ensure ((lookup k kvs).getD (.obj [])) (k2 :: ks2) v with
+        | error e => simp [hc, Except.map] at h
+        | ok c' =>
+          simp [hc, Except.map] at h
+          subst h
+          have ihc := ih _ _ hc
+          cases q with
+          | nil => simp [setA, leafAt]
+          | cons k' qs =>
+            by_cases e : k = k'
+            · subst e
+              simp only [leafAt_obj_cons, lookup_insert_same, ihc qs, setA, pre_cons_same]
+              cases hl : lookup k kvs with
+              | none => simp [leafAt_empty]
+              | some c => simp
+            · have e' : k' ≠ k := fun x => e x.symm
+              simp [setA, leafAt_obj_cons, lookup_insert_other _ _ _ _ e', pre_cons_cons, e]
+    | _ => simp [ensure] at h
+
+
+theorem remove_leaf (p : List String) :
+    ∀ (b b' : J), remove b p = .ok b' → ∀ q, leafAt b' q = delA (leafAt b) p q := by
+  induction p with
+  | nil => intro b b' h; cases b <;> simp [remove] at h
+  | cons k ks ih =>
+    intro b b' h q
+    cases b with
+    | obj kvs =>
+      cases ks with
+      | nil =>
+        simp [remove] at h
+        subst h
+        cases q with
+        | nil => simp [delA, leafAt]
+        | cons k' qs =>
+          by_cases e : k = k'
+          · subst e
+            simp [delA, leafAt_obj_cons, lookup_erase_same]
+          · have e' : k' ≠ k := fun x => e x.symm
+            simp [delA, leafAt_obj_cons, lookup_erase_other _ _ _ e', pre_cons_cons, e]
+      | cons k2 ks2 =>
+        cases hl : lookup k kvs with
+        | none =>
+          simp [remove, hl] at h
+          subst h
+          cases q with
+          | nil => simp [delA, leafAt]
+          | cons k' qs =>
+            by_cases e : k = k'
+            · subst e; simp [delA, leafAt_obj_cons, hl]
+            · simp [delA, pre_cons_cons, e]
+        | some c =>
+          cases hc : remove c (k2 :: ks2) with
+          | error e => simp [remove, hl, hc, bind, Except.bind] at h
+          | ok c' =>
+            have ihc := ih _ _ hc
+            cases q with
+            | nil =>
+              simp only [remove, hl, hc, bind, Except.bind, pure, Except.pure] at h
+              split at h <;> (simp at h; subst h; simp [delA, leafAt])
+            | cons k' qs =>
+              simp only [remove, hl, hc, bind, Except.bind, pure, Except.pure] at h
+              by_cases e : k = k'
+              · subst e
+                have := ihc qs
+                split at h
+                · simp at h; subst h
+                  rw [leafAt_empty] at this
+                  simp only [leafAt_obj_cons, lookup_erase_same, delA, pre_cons_same, hl]
+                  simp only [delA] at this
+                  split
+                  · rfl
+                  · rename_i hp; simp [hp] at this; exact this
+                · simp at h; subst h
+                  simp only [leafAt_obj_cons, lookup_insert_same, delA, pre_cons_same, hl]
+                  simpa [delA] using this
+              · have e' : k' ≠ k := fun x => e x.symm
+                split at h <;>
+                  (simp at h; subst h
+                   simp [delA, leafAt_obj_cons, lookup_erase_other _ _ _ e',
+                     lookup_insert_other _ _ _ _ e', pre_cons_cons, e])
+    | _ => simp [remove] at h
+
+
+/-- no leaf sits at a proper prefix of `p` -/
+def NoLeafAbove (M : LeafMap) (p : List String) : Prop :=
+  ∀ q, pre q p = true → q ≠ p → M q = none
+
+theorem obj_of_leafAt_nil {b : J} (h : leafAt b [] = none) : ∃ kvs, b = .obj kvs := by
+  cases b <;> simp [leafAt] at h
+  exact ⟨_, rfl⟩
+
+theorem noLeafAbove_child (kvs : List (String × J)) (k : String) (p : List String)
+    (h : NoLeafAbove (leafAt (.obj kvs)) (k :: p)) :
+    NoLeafAbove (leafAt ((lookup k kvs).getD (.obj []))) p := by
+  intro q hq hne
+  have := h (k :: q) (by simpa using hq) (by simpa using hne)
+  rw [leafAt_obj_cons] at this
+  cases hl : lookup k kvs with
+  | none => simp [leafAt_empty]
+  | some c => simpa [hl] using this
+
+theorem ensure_ok (v : J) (p : List String) :
+    ∀ (b : J), p ≠ [] → NoLeafAbove (leafAt b) p → ∃ b', ensure b p v = .ok b' := by
+  induction p with
+  | nil => intro b h; exact absurd rfl h
+  | cons k ks ih =>
+    intro b _ hM
+    obtain ⟨kvs, rfl⟩ := obj_of_leafAt_nil (hM [] rfl (by simp))
+    cases ks with
+    | nil => simp only [ensure]; exact ⟨_, rfl⟩
+    | cons k2 ks2 =>
+      obtain ⟨c', hc⟩ := ih ((lookup k kvs).getD (.obj [])) (by simp) (noLeafAbove_child kvs k _ hM)
+      cases hl : lookup k kvs with
+      | none => simp [hl] at hc; simp only [ensure, hl, hc, bind, Except.bind, pure, Except.pure]; exact ⟨_, rfl⟩
+      | some c => simp [hl] at hc; simp only [ensure, hl, hc, bind, Except.bind, pure, Except.pure]; exact ⟨_, rfl⟩
+
+theorem remove_ok (p : List String) :
+    ∀ (b : J), p ≠ [] → NoLeafAbove (leafAt b) p → ∃ b', remove b p = .ok b' := by
+  induction p with
+  | nil => intro b h; exact absurd rfl h
+  | cons k ks ih =>
+    intro b _ hM
+    obtain ⟨kvs, rfl⟩ := obj_of_leafAt_nil (hM [] rfl (by simp))
+    cases ks with
+    | nil => simp only [remove]; exact ⟨_, rfl⟩
+    | cons k2 ks2 =>
+      cases hl : lookup k kvs with
+      | none => simp only [remove, hl]; exact ⟨_, rfl⟩
+      | some c =>
+        have hch := noLeafAbove_child kvs k _ hM
+        simp [hl] at hch
+        obtain ⟨c', hc⟩ := ih c (by simp) hch
+        simp only [remove, hl, hc, bind, Except.bind, pure, Except.pure]
+        split <;> exact ⟨_, rfl⟩
 end Kopf.C18
